@@ -16,7 +16,7 @@ from fractions import Fraction
 REPO = os.environ.get("VERIF_REPO", "/repo")
 PKG = os.path.join(REPO, "ghedesigner")
 HERE = os.path.dirname(os.path.abspath(__file__))
-OUT = os.path.join(os.path.dirname(HERE), "coq", "theories", "gen", "Src.v")
+OUT = os.path.join(os.environ.get("VERIF_COQ") or os.path.join(os.path.dirname(HERE), "coq"), "theories", "gen", "Src.v")
 
 
 class Unsupported(Exception):
